@@ -158,6 +158,8 @@ pub fn run_incr_case(case: &Case, env: &Env, focus: &str) -> CaseOut {
         repeat_pct: 20,
         explain_pct: 0,
         symlink_pct: 10,
+        // the real command line carries the way dependencies are reported, so changing it changes the command
+        deps_toggle: false,
         ..Profile::default()
     };
     let mut mt = Tape::new(&case.main);
